@@ -650,7 +650,7 @@ class RotationImplemented(BaseAlignmentModel):
             Result of alignment.
         """
         iopt, shift, _, corr = super().align(img, max_shifts, quaternion, pos, backend)
-        quat = self.quaternions[iopt % self._n_rotations]
+        quat = self.quaternions[iopt // self._n_templates]
         return AlignmentResult(label=iopt, shift=shift, quat=quat, score=corr)
 
     def fit(
